@@ -143,3 +143,19 @@ def evidence(pid, tier, seed, level, evaluations, distinct, rule, samples, class
 def error_codes(stderr):
     import re
     return sorted(set(re.findall(r"error\[(E\d{4})\]", stderr)))
+
+
+def error_locations(stderr, file_pat):
+    """(line number, headline) for every location in a file matching `file_pat` that belongs to an *error* diagnostic.
+    rustc separates diagnostics by a blank line and starts each with `error...` / `warning...` in column 0; locations inside
+    warnings (unused braces and the like) say nothing about why a program was rejected and are skipped."""
+    import re
+    out = []
+    for block in re.split(r"\n(?=(?:error|warning)[\[: (])", "\n" + stderr):
+        block = block.lstrip("\n")
+        if not block.startswith("error"):
+            continue
+        head = block.splitlines()[0] if block else "error"
+        for m in re.finditer(r"(?:-->|:::) [^\n]*%s:(\d+):" % file_pat, block):
+            out.append((int(m.group(1)), head, block))
+    return out
